@@ -333,7 +333,16 @@ FIXED = [
     "CCO", "CC(=O)C", "c1ccccc1O", "Oc1ccccc1", "CC(=O)O", "CC=O", "O=C1CCCCC1", "CO", "C", "[Na+]", "N", "OO", "c1ccncc1",
     "CC(C)(C)O", "OC(=O)C(O)=O", "O=C=O", "[C-]#[O+]", "Oc1ccc2ccccc2c1", "OC1=CC=CC1", "OC1=COC=C1", "c1ccoc1",
 ]
+# many convertible groups in one input (mixtures, chains, one molecule): every group must be converted in ONE call
+MANY_GROUPS = (
+    [".".join(["C=CO"] * n) for n in (5, 6, 7, 8, 9, 12, 16)]
+    + [".".join(["CC(O)(O)C"] * n) for n in (5, 7, 10)]
+    + ["C" + "C(O)(O)C" * n for n in (3, 5, 7, 9)]
+    + [".".join(["C=C(O)C"] * 4 + ["OCO"] * 4), ".".join(["C=CO", "CC(O)(O)C"] * 5), "OC=CCC(O)=CCC(O)=CCC(O)=CCC(O)=CCC(O)=CCC(O)=CCC(O)=C",
+       ".".join(["OC(C)(C)OC"] * 8), ".".join(["C=CO"] * 7 + ["CCO", "O"])]
+)
 FAMILIES = [
+    ("many-groups", MANY_GROUPS),
     ("enol", ENOLS), ("enolate/charged", ENOLATES), ("enol-ether", ENOL_ETHERS), ("metal-alkoxide", METAL_ALKOXIDES),
     ("gem-diol/triol", GEM_DIOLS), ("hemiketal-OH-first", HEMIKETALS_OH_FIRST), ("hemiketal-OR-first", HEMIKETALS_OR_FIRST),
     ("cyclic-hemiketal", CYCLIC_HEMIKETALS), ("mixture", MIXTURES), ("bracket-atoms", BRACKETS), ("no-group", FIXED),
